@@ -23,6 +23,10 @@ pub struct C08Case
     /// 2 a name with blanks and non-ASCII letters, 3 a path of about 900 bytes
     #[serde(default)]
     pub odd_tmpdir: u8,
+    /// one more run over a tree of this many one-statement files with TMPDIR on another filesystem, so
+    /// that every single file fails to be moved into place (0 = none)
+    #[serde(default)]
+    pub many_failing: u16,
 }
 
 fn is_scratch(p: &str) -> bool
@@ -197,6 +201,10 @@ pub fn check(case: &C08Case) -> CaseOutcome
             plans.push(format!("wfail:{}:{}", t.k, PERSISTENT[t.k as usize % PERSISTENT.len()]));
             plans.push(format!("wfail:{}:{}", t.k, PERSISTENT[(t.k as usize / PERSISTENT.len() + t.k as usize + 2) % PERSISTENT.len()]));
         }
+        for t in wp.iter().filter(|t| t.kind == "rename")
+        {
+            plans.push(format!("rfail:{}:{}", t.k, if t.k % 2 == 0 { "EEXIST" } else { "EBUSY" }));
+        }
         // stop requests while a temporary file exists: the run still "exits normally", so clause (c) applies
         for t in &wp
         {
@@ -233,7 +241,7 @@ pub fn check(case: &C08Case) -> CaseOutcome
     {
         let fr = fault_run(&tree, false, Some(plan.clone()), None);
         o.evals += 1;
-        o.class(if plan.starts_with("wfail") { "plan-persistent-write-failure" } else if plan.starts_with("sig") { "plan-stop-signal-on-write-path" } else if plan.contains(';') { "plan-multi-fault" } else if plan.starts_with("short") { "plan-short-write" } else { "plan-single-fault" });
+        o.class(if plan.starts_with("rfail") { "plan-persistent-rename-failure" } else if plan.starts_with("wfail") { "plan-persistent-write-failure" } else if plan.starts_with("sig") { "plan-stop-signal-on-write-path" } else if plan.contains(';') { "plan-multi-fault" } else if plan.starts_with("short") { "plan-short-write" } else { "plan-single-fault" });
         judge(&mut o, &tree, &files, &fr, plan, false, &mut seen);
         // non-trivial: the failure hit one file while another file was updated
         let updated_some = files.iter().any(|(rel, orig)| fr.after.get(rel).map(|n| n != orig).unwrap_or(false));
@@ -298,6 +306,31 @@ pub fn check(case: &C08Case) -> CaseOutcome
             judge(&mut o, &tree, &files, &fr, "unusual temporary directory", false, &mut seen);
         }
     }
+    if case.many_failing != 0 && case.only_plan.is_none() && o.deviations.is_empty()
+    {
+        // N files, none of which can be moved into place: whatever N is, the run must not report success
+        let mut big = Tree::new();
+        big.insert("Breadlog.yaml".to_string(), tree.get("Breadlog.yaml").cloned().unwrap_or(Node::File(Vec::new())));
+        big.insert("src".to_string(), Node::Dir);
+        for i in 0..case.many_failing
+        {
+            big.insert(format!("src/d{}/f{}.rs", i % 7, i), Node::File(format!("fn f{}() {{\n    info!(\"needs a reference {}\");\n}}\n", i, i).into_bytes()));
+        }
+        let base = build_dir().join("work");
+        let _ = std::fs::create_dir_all(&base);
+        let work = Sandbox::new_in(&base);
+        let fr = fault_run(&big, false, None, Some(work.root.clone()));
+        o.evals += 1;
+        o.class(&format!("many-files-all-failing-{}", case.many_failing));
+        let untouched = fr.after.iter().filter(|(k, v)| k.starts_with("src/") && String::from_utf8_lossy(v).contains("info!(\"needs")).count();
+        if fr.run.exit.success() && untouched > 0
+        {
+            o.fail(
+                "success-reported-despite-cross-fs-rename-failure",
+                format!("{} files, TMPDIR on another filesystem: {} file(s) were not updated, yet the run exited 0:\n{}", case.many_failing, untouched, fr.run.output_tail()),
+            );
+        }
+    }
     o.nontrivial = false;
     o.sample = Some(json!({
         "files": files.iter().map(|f| json!({"path": f.0, "bytes": f.1.len()})).collect::<Vec<_>>(),
@@ -315,13 +348,15 @@ pub fn strategy() -> BoxedStrategy<C08Case>
         vec(vec((any::<u16>(), any::<u8>()), 2..=3), 0..10),
         prop_oneof![2 => Just(false), 1 => Just(true)],
         prop_oneof![3 => Just(0u8), 1 => 1u8..=3],
+        prop_oneof![30 => Just(0u16), 1 => proptest::sample::select(&[126u16, 127, 128, 253, 254, 255, 256, 257, 510][..])],
     )
-        .prop_map(|(tree, multi, cross_fs, odd_tmpdir)| C08Case {
+        .prop_map(|(tree, multi, cross_fs, odd_tmpdir, many_failing)| C08Case {
             tree,
             multi,
             cross_fs,
             only_plan: None,
             odd_tmpdir,
+            many_failing,
         })
         .boxed()
 }
@@ -330,7 +365,7 @@ pub fn run(env: &Env, rec: &Recorder) -> (String, Vec<&'static str>)
 {
     pbt_opts(env, rec, "faults", env.cases(120, 4000), 40, &strategy, &check);
     (
-        "trees of 2-6 small source files (subset needing insertions), both styles, cache on/off; per tree ALL single faults on the write path (temporary-file creation, every write incl. the final flush, the rename; each applicable errno, and short writes), a persistent write failure starting at every scratch-file write (ENOSPC/EIO/EINVAL/ENOSYS/EOPNOTSUPP/EDQUOT), plus up to 10 generated 2-3-fault plans, plus one and two stop signals (SIGTERM/SIGINT) at every write-path operation, each on a fresh copy, plus (1 in 3 trees) a real cross-filesystem TMPDIR (project on tmpfs, TMPDIR on ext4) with no injection, plus (1 in 4 trees) a fault-free run whose TMPDIR has an unusual name (not valid UTF-8; blanks and non-ASCII letters; a path of about 800 bytes). Oracle: write-path failure => exit != 0; exit 0 => printed count = tokens in the files and a following fault-free --check passes; normal exit without injected unlink failure => no breadlog-*.tmp left in TMPDIR. Non-trivial = distinct (tree, plan) where the failure left one file untouched while another file was updated".to_string(),
+        "trees of 2-6 small source files (subset needing insertions), both styles, cache on/off; per tree ALL single faults on the write path (temporary-file creation, every write incl. the final flush, the rename; each applicable errno, and short writes), a persistent write failure starting at every scratch-file write (ENOSPC/EIO/EINVAL/ENOSYS/EOPNOTSUPP/EDQUOT), a persistent rename failure starting at every rename (EEXIST/EBUSY), (1 tree in 30) a run over 126-510 one-statement files none of which can be moved into place, plus up to 10 generated 2-3-fault plans, plus one and two stop signals (SIGTERM/SIGINT) at every write-path operation, each on a fresh copy, plus (1 in 3 trees) a real cross-filesystem TMPDIR (project on tmpfs, TMPDIR on ext4) with no injection, plus (1 in 4 trees) a fault-free run whose TMPDIR has an unusual name (not valid UTF-8; blanks and non-ASCII letters; a path of about 800 bytes). Oracle: write-path failure => exit != 0; exit 0 => printed count = tokens in the files and a following fault-free --check passes; normal exit without injected unlink failure => no breadlog-*.tmp left in TMPDIR. Non-trivial = distinct (tree, plan) where the failure left one file untouched while another file was updated".to_string(),
         vec!["faults injected at libc call boundaries via LD_PRELOAD", "the cross-filesystem case relies on /dev/shm (tmpfs) and /verif/.build (disk) being different filesystems; the evidence counts how often rename really failed with EXDEV"],
     )
 }
